@@ -38,7 +38,7 @@ Cases == IF Tier = "guard"
 VARIABLES case, pc, idx, sources, stacks
 vars == <<case, pc, idx, sources, stacks>>
 Root == [full |-> "root", file |-> "", inlined |-> FALSE, self |-> 0, places |-> <<>>, ndisplay |-> 1]
-Init == case \in Cases /\ pc = "stacks" /\ idx = 1 /\ sources = <<Root>> /\ stacks = <<>>
+Init == case \in Cases /\ pc = (IF Len(case.samples) = 0 THEN "places" ELSE "stacks") /\ idx = 1 /\ sources = <<Root>> /\ stacks = <<>>
 
 Key(fr) == IF Broken = "internNoInlined" THEN <<fr.full, fr.file>> ELSE <<fr.full, fr.file, fr.inlined>>
 \* intern the frames of one sample in order; returns the extended source table and the index list
